@@ -42,7 +42,8 @@ def history_witness(quick=True):
         fresh = base / "fresh"
         nnvg(fresh, ["--file-mode", "0o644"])
         ref = snap(fresh)
-        steps = [["--file-mode", "0o444"], ["--file-mode", "0o755"], ["--no-overwrite"], ["--omit-serialization-support"], ["--file-mode", "0o600", "--pp-trim-trailing-whitespace"]]
+        steps = [["--file-mode", "0o444"], ["--file-mode", "0o755"], ["--no-overwrite"], ["--omit-serialization-support"], ["--file-mode", "0o600", "--pp-trim-trailing-whitespace"],
+                 ["--no-overwrite", "--generate-support", "always"], ["--file-mode", "0o664"]]
         n = 0
         for seq in itertools.product(range(len(steps)), repeat=2 if quick else 3):
             n += 1
@@ -92,8 +93,22 @@ def main():
             wcache["w"] = history_witness(True)
         return wcache["w"]
 
-    driver.verify_contracts(run, eng, [K.HANDLE_OVERWRITE, K.SET_FILE_MODE],
-                            witness={"CodeGenerator._handle_overwrite": w, "SetFileMode.__call__": w})
+    def init_witness():
+        """native: the post-processor keeps the requested mode whatever the process umask is"""
+        from nunavut._postprocessors import SetFileMode
+        for um in (0o022, 0o077, 0o002):
+            for mode in (0o664, 0o666, 0o444, 0o640, 0o755):
+                old = os.umask(um)
+                try:
+                    got = getattr(SetFileMode(mode), "_file_mode", None)
+                finally:
+                    os.umask(old)
+                if got != mode:
+                    return {"input": {"file_mode": oct(mode), "process_umask": oct(um)}, "why": f"SetFileMode({oct(mode)}) will set {oct(got) if isinstance(got, int) else got}: files of a run differ from the requested mode"}
+        return None
+
+    driver.verify_contracts(run, eng, [K.HANDLE_OVERWRITE, K.SET_FILE_MODE, K.SET_FILE_MODE_INIT],
+                            witness={"CodeGenerator._handle_overwrite": w, "SetFileMode.__call__": w, "SetFileMode.__init__": init_witness})
     # ---- ordering / frame obligations on the real ASTs (E-FX) --------------------------------------------------
     ix = efx.PyIndex(SRC)
 
@@ -101,6 +116,23 @@ def main():
         wit = w()
         run.fail(report.Failure(name, "frame", detail + (f"; nnvg history {wit['input']}: {wit['why']}" if wit else ""), {"witness": wit}, bool(wit)))
 
+    # relational argument obligation: every generate_all call of the command-line runner (type AND support generator) is
+    # handed exactly `not --no-overwrite`: no other option may re-enable overwriting for one of the generators
+    q = "nunavut.cli.runners:ArgparseRunner._generate"
+    if q in ix.fns:
+        calls = [n for n in ast.walk(ix.fns[q].node) if isinstance(n, ast.Call) and isinstance(n.func, ast.Attribute) and n.func.attr == "generate_all"]
+        if len(calls) < 2:
+            run.undecide(f"binding failure: {q} holds {len(calls)} generate_all calls")
+        for n in calls:
+            kw = {k.arg: ast.unparse(k.value) for k in n.keywords}
+            got = kw.get("allow_overwrite", ast.unparse(n.args[1]) if len(n.args) > 1 else "<default True>")
+            ok = got == "not self._args.no_overwrite"
+            name = f"ArgparseRunner._generate#{ast.unparse(n.func.value)}.generate_all-gets-allow_overwrite==not-no_overwrite"
+            run.add_check(name, ok, "E-FX relational arguments", 0, f"allow_overwrite={got}")
+            if not ok:
+                fail(name, f"{ix.fns[q].file}:{n.lineno}: {ast.unparse(n.func.value)}.generate_all(allow_overwrite={got}): --no-overwrite does not reach this generator unchanged")
+    else:
+        run.undecide(f"binding failure: {q}")
     for q, writer in (("nunavut.jinja:CodeGenerator._generate_code", lambda n: isinstance(n, ast.Call) and ast.unparse(n.func) == "open"),
                       ("nunavut.jinja:SupportGenerator._copy_header", lambda n: isinstance(n, ast.Call) and (ast.unparse(n.func) in ("shutil.copy", "open") or ast.unparse(n.func).endswith("_copy_header_using_line_pps")))):
         if q not in ix.fns:
